@@ -1,9 +1,9 @@
 SPECIFICATION Spec
-CONSTANT MaxCals = 3
-CONSTANT Names = {"RX"}
-CONSTANT QueryNames = {"RX"}
-CONSTANT ModSets <- ModsNone
-CONSTANT MeasCals = TRUE
+CONSTANT Focuses = {"general", "mods", "params", "qubits", "meas"}
+CONSTANT MaxGeneral = 2
+CONSTANT MaxSmall = 3
+CONSTANT MaxMeas = 3
+CONSTANT GeneralNames = {"X", "RX"}
 INVARIANT GateRefines
 INVARIANT MeasRefines
 INVARIANT ChosenIsLegal
